@@ -6,6 +6,7 @@
 #include <string>
 #include <vector>
 #include <map>
+#include <set>
 #include <memory>
 #include <functional>
 #include <nlohmann/json.hpp>
@@ -80,6 +81,7 @@ namespace sim
         bool obs_stack = false;
         bool obs_visits = true;
         bool obs_slices = true;
+        std::set<std::string> obs_ops; // operator names whose execution is recorded with the resulting top of stack
 
         std::vector<Fault> faults;
         std::map<std::string, uint64_t> faults_fired;
